@@ -25,6 +25,7 @@ def run(rep: core.Report):
     _r12e(rep)
     _r12f(rep)
     _r12g(rep)
+    _r12h(rep)
     # R12a -------------------------------------------------------------
     fn = core.find_def(GV, "GroupVelocity._calculate_group_velocity_at_q")
     lam, fac = sp.Symbol("lam", positive=True), sp.Symbol("factor", positive=True)
@@ -194,6 +195,47 @@ def _attr_resolution(rep, files, rule):
                                  f"'{a.attr}' is neither a method, property, class attribute nor an instance attribute of {cls.name} (or its bases): AttributeError on this access path", line=a.lineno)
     if n < (10 if len(files) < 20 else 150):
         raise AnalysisError(f"{rule}: only {n} attribute uses on locally constructed repository objects found")
+
+
+def _r12h(rep):
+    """First-order perturbation theory as written: directional derivative, rotation inside degenerate sets,
+    expectation values, placement of the results, site-symmetry average."""
+    from engine import sites
+
+    rep.rule("R12h", "group velocity assembly: directional derivative sum_j dq_j dD/dq_j per direction; degenerate sets are rotated by the eigenvectors of e^H dD_0 e and the velocities are diag(e'^H dD e').real; results are placed at the positions of the set; the site-symmetry average is sum_R R_cart gv / number of rotations that leave q (in the first zone) invariant", 8)
+    G = "GroupVelocity"
+    S = [
+        (f"{G}._get_dD_analytical", "aug", "ddm_dirs[i]", "dq[j] * ddm[j]", "the directional derivative is not sum_j dq_j dD/dq_j stored for direction i"),
+        (f"{G}._perturb_D", "assign", "rot_eigsets", "np.dot(eigsets, eigvecs)", "the degenerate eigenvectors are not rotated by the eigenvectors of e^H dD_0 e"),
+        (f"{G}._symmetrize_group_velocity", "aug", "gv_sym", "np.dot(r_cart, gv.T).T", "the symmetrised velocity is not the sum of R_cart gv"),
+        (f"{G}._symmetrize_group_velocity", "ret", None, "gv_sym / len(rotations)", "the sum over rotations is not divided by their number"),
+        (f"{G}._symmetrize_group_velocity", "assign", "diff", "(q - np.rint(q)) - np.dot(r, q - np.rint(q))", "the rotations kept are not those with R q = q for q reduced to the first zone"),
+        (f"{G}._symmetrize_group_velocity", "assign", "r_cart", "similarity_transformation(self._reciprocal_lattice, r)", "the reciprocal operation is not converted to Cartesian coordinates with the reciprocal lattice"),
+    ]
+    for qn, kind, target, text, msg in S:
+        sites.check(rep, "R12h", GV, qn, kind, target, text, msg + ": the reported group velocity is not the gradient of the frequency")
+    pd = core.find_def(GV, f"{G}._perturb_D")
+    eh = [st for st in ast.walk(pd) if isinstance(st, ast.Assign) and isinstance(st.value, ast.Call) and core.src(st.value.func) == "np.linalg.eigh" and isinstance(st.targets[0], ast.Tuple)]
+    ok_eh = len(eh) == 1 and core.src(eh[0].targets[0].elts[1]) == "eigvecs" and symalg.same(symalg.open_expr(core.src(eh[0].value.args[0])), symalg.open_expr("np.dot(eigsets.T.conj(), np.dot(ddms[0], eigsets))"))[0]
+    rep.instance("R12h", GV, f"{G}._perturb_D", "_, eigvecs = eigh(e^H dD_0 e) with dD_0 the derivative along the perturbation direction", ok_eh, "the rotation inside a degenerate set does not diagonalise e^H dD_0 e", line=pd.lineno)
+    apps = [c.args[0] for c in ast.walk(pd) if isinstance(c, ast.Call) and core.src(c.func) == "gv.append" and c.args]
+    ok_app = len(apps) == 1 and symalg.same(symalg.open_expr(core.src(apps[0])), symalg.open_expr("np.diag(np.dot(rot_eigsets.T.conj(), np.dot(ddm, rot_eigsets))).real"))[0]
+    loops = [lp for lp in ast.walk(pd) if isinstance(lp, ast.For)]
+    ok_loop = len(loops) == 1 and core.src(loops[0].iter).replace(" ", "") == "ddms[1:]"
+    rep.instance("R12h", GV, f"{G}._perturb_D", "velocity components = diag(e'^H dD_k e').real for the three Cartesian derivatives ddms[1:]", ok_app and ok_loop, "the expectation values are not taken with the rotated eigenvectors over the Cartesian derivatives", line=pd.lineno)
+    cq = core.find_def(GV, f"{G}._calculate_group_velocity_at_q")
+    loop = [lp for lp in ast.walk(cq) if isinstance(lp, ast.For) and core.src(lp.iter) == "deg_sets"]
+    ok_pos = False
+    if len(loop) == 1:
+        v = core.src(loop[0].target)
+        st = [x for x in loop[0].body if isinstance(x, ast.Assign) and isinstance(x.targets[0], ast.Subscript) and core.src(x.targets[0].value) == "gv"]
+        ag = [x for x in loop[0].body if isinstance(x, ast.AugAssign) and core.src(x.target) == "pos"]
+        if len(st) == 1 and len(ag) == 1 and isinstance(st[0].targets[0].slice, ast.Slice):
+            sl = st[0].targets[0].slice
+            ok_pos = core.src(sl.lower) == "pos" and symalg.same(symalg.open_expr(core.src(sl.upper)), symalg.open_expr(f"pos + len({v})"))[0] and isinstance(ag[0].op, ast.Add) and core.src(ag[0].value) == f"len({v})" and symalg.same(symalg.open_expr(core.src(st[0].value)), symalg.open_expr(f"self._perturb_D(ddms, eigvecs[:, {v}])"))[0]
+            init = [x for x in cq.body if isinstance(x, ast.Assign) and core.src(x.targets[0]) == "pos"]
+            ok_pos = ok_pos and len(init) == 1 and core.src(init[0].value) == "0"
+    rep.instance("R12h", GV, f"{G}._calculate_group_velocity_at_q", "gv[pos : pos + len(deg)] = perturb(ddms, eigvecs[:, deg]); pos += len(deg)", ok_pos, "the velocities of a degenerate set are not stored at the positions of its bands", line=cq.lineno)
 
 
 def _r12g(rep):
@@ -429,4 +471,7 @@ def selftest():
     n("derivative kernel: factors reordered", DDMC, "                    ddm_real[n][l][m] += fc_elem * real_coef[n];", "                    ddm_real[n][l][m] += real_coef[n] * fc_elem;")
     b("NAC derivative: quotient rule sign", DDMC, "                            (da * b + db * a - a * b * dc / c) /", "                            (da * b + db * a + a * b * dc / c) /", "R12g", "ddnac")
     b("NAC derivative: mass factor dropped", DDMC, "                                a * b / (c * mass_sqrt) * factor;", "                                a * b / c * factor;", "R12g", "dnac")
+    b("directional derivative mixes the components", GV, "                ddm_dirs[i] += dq[j] * ddm[j]", "                ddm_dirs[i] += dq[i] * ddm[j]", "R12h", "_get_dD_analytical")
+    b("symmetrised velocity not averaged", GV, "        return gv_sym / len(rotations)", "        return gv_sym", "R12h", "_symmetrize_group_velocity")
+    b("degenerate set placed one band too far", GV, "            gv[pos : pos + len(deg)] = self._perturb_D(ddms, eigvecs[:, deg])", "            gv[pos + 1 : pos + 1 + len(deg)] = self._perturb_D(ddms, eigvecs[:, deg])", "R12h", "_calculate_group_velocity_at_q")
     return V
